@@ -2,6 +2,7 @@ package align
 
 import (
 	"fmt"
+	"math"
 	"unicode"
 )
 
@@ -184,18 +185,19 @@ func (a *pwaligner) fillMatrix_SW() (err error) {
 	var match, fnew float64
 
 	// First row
+	// gapped: best score of an alignment ending with a gap at the previous cell of the border
+	gapped := math.Inf(-1)
 	for j := 0; j < l2; j++ {
 		c1 = a.seq1.CharAt(0)
 		c2 = a.seq2.CharAt(j)
 		match = a.matchScore(c1, c2, indexseq1[0], indexseq2[j])
 		fnew = 0.0
 		if j > 0 {
-			fnew = a.matrix[0][j-1]
-			if a.trace[0][j-1] == ALIGN_LEFT {
-				fnew += a.gapextend
-			} else {
-				fnew += a.gapopen
+			fnew = a.matrix[0][j-1] + a.gapopen
+			if gapped+a.gapextend > fnew {
+				fnew = gapped + a.gapextend
 			}
+			gapped = fnew
 		}
 		if match > fnew && match > .0 {
 			a.matrix[0][j] = match
@@ -217,6 +219,7 @@ func (a *pwaligner) fillMatrix_SW() (err error) {
 	}
 
 	// First column
+	gapped = math.Inf(-1)
 	for i := 0; i < l1; i++ {
 		c1 = a.seq1.CharAt(i)
 		c2 = a.seq2.CharAt(0)
@@ -224,12 +227,11 @@ func (a *pwaligner) fillMatrix_SW() (err error) {
 
 		fnew = 0.0
 		if i > 0 {
-			fnew = a.matrix[i-1][0]
-			if a.trace[i-1][0] == ALIGN_UP {
-				fnew += a.gapextend
-			} else {
-				fnew += a.gapopen
+			fnew = a.matrix[i-1][0] + a.gapopen
+			if gapped+a.gapextend > fnew {
+				fnew = gapped + a.gapextend
 			}
+			gapped = fnew
 		}
 		if match > fnew && match > .0 {
 			a.matrix[i][0] = match
